@@ -113,6 +113,36 @@ func parseFail(ws bool, pos int, mode string) *handshake {
 	}}
 }
 
+// parseFailUnusable: the feature whose advertisement cannot be parsed is one
+// that is configured but not usable in the current state (it needs Secure, the
+// session is not): its Parse callback is executed all the same, so its error
+// is the error of an executed step.
+func parseFailUnusable(ws bool, pos int, mode string) *handshake {
+	name := "parsefail-unusable-" + posName[pos]
+	if mode == "consumed" {
+		name += "-consumed"
+	}
+	name += "-init"
+	if ws {
+		name = "ws-" + name
+	}
+	return &handshake{Name: name, Role: "init", Expect: "stepfail", New: func() *attempt {
+		a := &attempt{}
+		ads := place(pos, hspeer.Advert(nsF, "f", false), hspeer.Advert(nsM, "m", true), hspeer.Advert(nsX, "x", false))
+		a.peer = hspeer.NewPeer(
+			hspeer.Step{Want: []string{first(ws)}, Reply: hspeer.Say(srvHeader(ws, "s1") + hspeer.Features(ws, ads[0]+ads[1]+ads[2]))},
+			hspeer.Step{Want: []string{"select"}, Reply: okFor},
+			hspeer.Step{Want: []string{"select"}, Reply: okFor},
+		)
+		a.call = func(ctx context.Context, conn io.ReadWriter, log *hspeer.Log) (*xmpp.Session, error) {
+			f := hspeer.Custom(hspeer.CustomCfg{NS: nsF, Local: "f", Necessary: xmpp.Secure, ParseErr: mode})
+			fs := hspeer.InstrumentAll(log, f, featM(false, 0), featX())
+			return xmpp.NewSession(ctx, serverJID, clientJID, conn, 0, negotiatorFor(ws, fs))
+		}
+		return a
+	}}
+}
+
 func stepFailHandshakes() []*handshake {
 	var hs []*handshake
 	for pos := 0; pos < 3; pos++ {
@@ -123,5 +153,6 @@ func stepFailHandshakes() []*handshake {
 		hs = append(hs, parseFail(false, pos, "clean"), parseFail(false, pos, "consumed"))
 	}
 	hs = append(hs, parseFail(true, 1, "clean"), parseFail(true, 2, "consumed"))
+	hs = append(hs, parseFailUnusable(false, 0, "clean"), parseFailUnusable(false, 1, "consumed"), parseFailUnusable(false, 2, "clean"), parseFailUnusable(true, 1, "clean"), parseFailUnusable(true, 2, "consumed"))
 	return hs
 }
